@@ -288,6 +288,36 @@ def run_concurrent(ctx, rounds, fixed=None):
             ctx.violation("compile-or-string-form-differs-under-concurrent-compiles:%s" % name.split()[0], {"kind": "concurrent-compile", "texts": texts, "env": name}, e)
         if errors:
             return
+        # FRESH compiled objects (nobody has asked for their string form, hash or equality yet) handed to all threads at
+        # once: the first str() of one object from several threads, and the string form it reports afterwards
+        long_ones = ["$" + "".join(".s%d[?@.k%d == %d]" % (i, i, i) if i % 3 == 0 else ".m%d" % i for i in range(n_)) for n_ in (30, 100)]
+        fresh = [(t, env.compile(t)) for t in list(texts) + long_ones if impl.call(env.compile, t).ok]
+        want = {t: str(env.compile(t)) for t, _o in fresh}
+        errors2 = []
+
+        def worker2(wid, rr):
+            for t, obj in fresh:
+                what = rr.choice(["str", "str", "hash-eq", "repr"])
+                try:
+                    if what == "hash-eq":
+                        obj == obj  # noqa: B015
+                        hash(obj) if getattr(obj, "__hash__", None) else None
+                    got = str(obj)
+                except Exception as e:  # noqa: BLE001
+                    got = "%s: %s" % (type(e).__name__, e)
+                if got != want[t]:
+                    errors2.append({"text": t[:200], "string_form_alone": want[t][:300], "first_string_form_taken_by_several_threads_at_once": got[:300], "thread": wid})
+                    return
+        st2 = stress(worker2, nthreads=8, files=("path.py", "selectors.py", "filter.py", "serialize.py"), seed=r.random(), prob=0.05)
+        ctx.count("first_string_forms_taken_concurrently", len(fresh) * 8)
+        ctx.count("yields_injected", st2["yields"])
+        for t, obj in fresh:
+            if str(obj) != want[t] and not errors2:
+                errors2.append({"text": t[:200], "string_form_alone": want[t][:300], "string_form_reported_after_the_threads_finished": str(obj)[:300]})
+        for e in errors2[:2]:
+            ctx.violation("string-form-differs-when-first-taken-by-several-threads-at-once", {"kind": "concurrent-compile", "texts": texts, "env": name}, e)
+        if errors2:
+            return
 
 
 def run(spec, ctx):
